@@ -305,6 +305,24 @@ let f _id vs =
     | [I "3"; n; np; std; acts; tlog; fin; total] ->
       kind3 (as_int n) (as_int np) (as_list std) (as_list acts) (as_list tlog) (as_int fin) (as_int total)
     | [I "4"; _pipeline; expected; runs] -> kind4 (as_list expected) (as_list runs)
+    | I "5" :: sub :: fired :: hang :: cls :: _ ->
+      (* the real pipeline on a synthetic store: a storage panic (sub 1) or a cancellation (sub 2)
+         in the middle of a cyclical message *)
+      let sub = as_int sub and fired = as_bool fired and hang = as_int hang and cls = as_int cls in
+      if hang <> 0 then
+        (if sub = 1 then "PROP teardown did not complete after a storage fault on a cyclical message (Close hangs)"
+         else "PROP teardown did not complete after cancellation in the middle of a cyclical message (Close hangs)")
+      else if sub = 1 && fired && (cls = 0 || cls = 1) then "PROP the storage fault on a cyclical message was not reported by Err()"
+      else if sub = 1 && (not fired) && cls <> 0 then "PROP error without a fault"
+      else if sub = 2 && cls >= 2 then
+        "PROP Err() is not a context error after cancellation: a member tore down while a cyclical message was in flight"
+      else "OK"
+    | [I "6"; layout; ext] ->
+      (* the hypothesis cyclic_send_never_blocks of the model, checked on the real constructor *)
+      if not (as_bool layout) then "DIFF cannot read the queue of a QueueMedium (layout changed)"
+      else if as_int ext >= 0 then
+        Printf.sprintf "DIFF cyclical queue is bounded (extensions=%d): the model takes a Send on a cyclical edge as never blocking" (as_int ext)
+      else "OK"
     | _ -> "DIFF malformed-record"
   with
   | Diff s -> "DIFF " ^ s
